@@ -393,7 +393,7 @@ pub fn replay(part: &str, case: serde_json::Value) -> Option<CaseResult> {
 pub fn meta() -> EvidenceMeta {
     EvidenceMeta {
         level: "exploration",
-        rule: "cases = literals composed of a number (0, 1, every overflow threshold floor(MAX/1024^k)-1..+2 for MAX in {u64::MAX, i64::MAX}, 2^k+-1, random 1-20 digits, 21-30 digits, no digits at all, Unicode-numeric characters that are no ASCII digits), a decoration (none, '-', '+', '.5', 'e3', leading zeros), whitespace before the unit (none/spaces/tab/mixed/no-break space/ideographic space/thin space), a unit (every documented spelling in random letter case, none, junk, or a documented unit followed by further words), optional outer whitespace, in one of seven carriers (YAML plain/quoted string, JSON string, TOML string, YAML/JSON/TOML bare numeric scalar), for SizeTriggerConfig (observed through Debug) and TimeTriggerInterval; oracle = u128 reference: value == number x unit (powers of 1024; named interval unit) when it fits u64 / i64, Err exactly when the statement demands rejection (negative, fractional, unknown unit, overflow); accept-either where the statement is silent (leading zeros, '+', outer whitespace, float-valued exponent scalars): an error is fine, a value must be exact; never a panic, never a wrapped value. refresh_rate (humantime): no panic, documented 'N seconds' form exact. non-trivial = number within 1 of an overflow threshold, or mixed-case unit, or whitespace before the unit, or an integer scalar above i64::MAX".into(),
+        rule: "cases = literals composed of a number (0, 1, every overflow threshold floor(MAX/1024^k)-1..+2 for MAX in {u64::MAX, i64::MAX}, 2^k+-1, random 1-20 digits, 21-30 digits, no digits at all, Unicode-numeric characters that are no ASCII digits), a decoration (none, '-', '+', '.5', 'e3', leading zeros), whitespace before the unit (none/spaces/tab/mixed/no-break space/ideographic space/thin space), a unit (every documented spelling in random letter case, none, junk, or a documented unit followed by further words), optional outer whitespace, in one of seven carriers (YAML plain/quoted string, JSON string, TOML string, YAML/JSON/TOML bare numeric scalar), for SizeTriggerConfig (observed through Debug) and TimeTriggerInterval; oracle = u128 reference: value == number x unit (powers of 1024; named interval unit) when it fits u64 / i64, Err exactly when the statement demands rejection (negative, fractional, unknown unit, overflow); accept-either where the statement is silent (leading zeros, '+', outer whitespace, float-valued exponent scalars): an error is fine, a value must be exact; never a panic, never a wrapped value. refresh_rate (humantime): no panic, documented 'N seconds' form exact. Further inputs (rounds 11-13): numbers beyond 64 and 128 bits; a documented unit followed by NUL or invisible characters. non-trivial = number within 1 of an overflow threshold, or mixed-case unit, or whitespace before the unit, or an integer scalar above i64::MAX".into(),
         assumptions: vec!["TOML integers are 64-bit signed: larger integer scalars in TOML are unsettled (carrier limit)".into()],
         mutants_caught: vec![],
     }
